@@ -28,6 +28,8 @@ FAIL_CASES = {
     'unknown-main': {'main': 'import "lib.m" box a { leaf x -> nope; }', 'lib.m': "leaf p; box l { leaf q -> p; }"},
     'unknown-lib': {'main': 'import "lib.m" box a { leaf x -> p; }', 'lib.m': "leaf p; box l { leaf q -> nope; }"},
     'unknown-single': {'main': 'box a { leaf x -> nope; } leaf y;'},
+    'string-unknown': {'main': "box a { leaf x -> nope; } leaf w -> p;", 'lib.m': "leaf p; box l { leaf q -> p; }"},
+    'string-syntax': {'main': "box a { leaf x -> p; } leaf % ;", 'lib.m': "leaf p; box l { leaf q -> p; }"},
 }
 LC.CASES.update(FAIL_CASES)
 
